@@ -43,6 +43,16 @@ impl Interval {
         );
         Self { lower, upper }
     }
+    /// Builds an interval from computed bounds, collapsing to the `NaN`
+    /// interval if either bound is `NaN` (e.g. `inf - inf` after overflow)
+    #[inline]
+    fn new_or_nan(lower: f32, upper: f32) -> Self {
+        if lower.is_nan() || upper.is_nan() {
+            f32::NAN.into()
+        } else {
+            Interval::new(lower, upper)
+        }
+    }
     /// Returns the lower bound of the interval
     #[inline]
     pub fn lower(&self) -> f32 {
@@ -651,7 +661,7 @@ impl std::ops::Add<Interval> for Interval {
     type Output = Self;
     #[inline]
     fn add(self, rhs: Self) -> Self {
-        Interval::new(self.lower + rhs.lower, self.upper + rhs.upper)
+        Interval::new_or_nan(self.lower + rhs.lower, self.upper + rhs.upper)
     }
 }
 
@@ -688,9 +698,9 @@ impl std::ops::Mul<f32> for Interval {
         if self.has_nan() || rhs.is_nan() {
             f32::NAN.into()
         } else if rhs < 0.0 {
-            Interval::new(self.upper * rhs, self.lower * rhs)
+            Interval::new_or_nan(self.upper * rhs, self.lower * rhs)
         } else {
-            Interval::new(self.lower * rhs, self.upper * rhs)
+            Interval::new_or_nan(self.lower * rhs, self.upper * rhs)
         }
     }
 }
@@ -730,7 +740,7 @@ impl std::ops::Sub<Interval> for Interval {
 
     #[inline]
     fn sub(self, rhs: Self) -> Self {
-        Interval::new(self.lower - rhs.upper, self.upper - rhs.lower)
+        Interval::new_or_nan(self.lower - rhs.upper, self.upper - rhs.lower)
     }
 }
 
